@@ -4,8 +4,8 @@ Obs == ndJsonDeserialize(IOEnv.TRACE_FILE)
 VARIABLE i
 Init == i = 1
 Next == /\ i <= Len(Obs)
-        /\ (IF (IF Obs[i].guard THEN GuardOK(Obs[i]) ELSE RowOK(Obs[i])) THEN PrintT(<<"ACCEPT", Obs[i].id>>) ELSE TRUE)
-        /\ (IF Obs[i].guard \/ PredictedOK(Obs[i]) THEN TRUE ELSE PrintT(<<"DRIFT", Obs[i].id>>))
+        /\ (IF (IF Obs[i].nd THEN NdOK(Obs[i]) ELSE IF Obs[i].guard THEN GuardOK(Obs[i]) ELSE RowOK(Obs[i])) THEN PrintT(<<"ACCEPT", Obs[i].id>>) ELSE TRUE)
+        /\ (IF Obs[i].nd \/ Obs[i].guard \/ PredictedOK(Obs[i]) THEN TRUE ELSE PrintT(<<"DRIFT", Obs[i].id>>))
         /\ i' = i + 1
 Spec == Init /\ [][Next]_i
 =============================================================================
